@@ -339,6 +339,14 @@ Definition f_1000 : float := 0x1.f4p+9%float.
 Definition f_1em3 : float := 0x1.0624dd2f1a9fcp-10%float. (* 1e-3 *)
 Definition f_1e3 : float := f_1000.                         (* 1e3 *)
 
+(** int -> double through the primitive conversion for 0 <= z < 2^53 (exact);
+    [Base.f_of_Z] otherwise.  The two agree (checked by [f_of_N_agrees] in
+    Proofs/EmuTimes.v on the range the sweeps use); the primitive one makes the
+    sweeps over 10^5 durations cheap. *)
+Definition f_of_N (z : Z) : float :=
+  if (0 <=? z) && (z <? 9007199254740992)
+  then PrimFloat.of_uint63 (Uint63.of_Z z) else f_of_Z z.
+
 Definition f_truncZ (x : float) : Z :=
   match f_trunc x with Some z => z | None => 0 end.
 
@@ -349,22 +357,22 @@ Definition linspace_int (stop num : Z) : list Z :=
   if num <=? 0 then []
   else if num =? 1 then [0]
   else
-    let delta := f_of_Z stop in
-    let div := f_of_Z (num - 1) in
+    let delta := f_of_N stop in
+    let div := f_of_N (num - 1) in
     let step := (delta / div)%float in
     map (fun i =>
            if i =? num - 1 then stop
            else if PrimFloat.eqb step zero
-                then f_truncZ ((f_of_Z i / div) * delta)%float
-                else f_truncZ (f_of_Z i * step)%float)
+                then f_truncZ ((f_of_N i / div) * delta)%float
+                else f_truncZ (f_of_N i * step)%float)
         (zrange num).
 
 (** [Hamiltonian._adapt_to_sampling_rate(np.arange(dur)/1000)] with
     [dur = total duration + 1] *)
 Definition sampling_indices (rate : float) (dur : Z) : list Z :=
-  linspace_int (dur - 1) (f_truncZ (rate * f_of_Z dur)%float).
+  linspace_int (dur - 1) (f_truncZ (rate * f_of_N dur)%float).
 Definition sampling_times (rate : float) (dur : Z) : list float :=
-  map (fun i => (f_of_Z i / f_1000)%float) (sampling_indices rate dur).
+  map (fun i => (f_of_N i / f_1000)%float) (sampling_indices rate dur).
 
 (** sorted insertion and [np.union1d] = sort + drop equal neighbours *)
 Fixpoint f_insert (x : float) (l : list float) : list float :=
@@ -399,7 +407,7 @@ Inductive evspec :=
 (** [QutipEmulator.set_evaluation_times] (simulation.py:376-441); [T] is
     [_tot_duration], the Hamiltonian was sampled on [T + 1] points *)
 Definition set_evaluation_times (rate : float) (T : Z) (v : evspec) : res (list float) :=
-  let tf := (f_of_Z T / f_1000)%float in
+  let tf := (f_of_N T / f_1000)%float in
   (* a thunk: evaluation inside Coq is strict, the sweeps over T must not
      pay for the sampling grid when the branch does not use it *)
   let st := fun _ : unit => sampling_times rate (T + 1) in
@@ -412,7 +420,7 @@ Definition set_evaluation_times (rate : float) (T : Z) (v : evspec) : res (list 
          else
            let s := st tt in
            let len := Z.of_nat (length s) in
-           let idx := linspace_int (len - 1) (f_truncZ (x * f_of_Z len)%float) in
+           let idx := linspace_int (len - 1) (f_truncZ (x * f_of_N len)%float) in
            Ok (map (fun i => nth (Z.to_nat i) s zero) idx)
      | EvList l =>
          if PrimFloat.ltb tf (f_maxl zero l) then Err EValue
@@ -423,14 +431,14 @@ Definition set_evaluation_times (rate : float) (T : Z) (v : evspec) : res (list 
 
 (** the relative time label of each result: [t / T * 1e3] *)
 Definition eval_labels (T : Z) (ts : list float) : list float :=
-  map (fun t => (t / f_of_Z T * f_1e3)%float) ts.
+  map (fun t => (t / f_of_N T * f_1e3)%float) ts.
 
 (** [QutipConfig._get_legacy_evaluation_times] (qutip_config.py:119-139).
     [default = None] stands for "Full"; [extra] are the observables' own
     evaluation times (a set: order irrelevant, union1d sorts). *)
 Definition v2_sampling_rel (rate : float) (T : Z) : list float :=
-  map (fun i => (f_of_Z i / f_of_Z T)%float)
-      (linspace_int (T - 1) (f_truncZ (rate * f_of_Z T)%float)).
+  map (fun i => (f_of_N i / f_of_N T)%float)
+      (linspace_int (T - 1) (f_truncZ (rate * f_of_N T)%float)).
 
 Definition v2_legacy_eval_times (rate : float) (T : Z) (default : option (list float))
            (extra : list float) : evspec :=
@@ -443,7 +451,7 @@ Definition v2_legacy_eval_times (rate : float) (T : Z) (default : option (list f
     end in
   match rel with
   | None => EvFull
-  | Some l => EvList (map (fun r => (r * f_of_Z T * f_1em3)%float) l)
+  | Some l => EvList (map (fun r => (r * f_of_N T * f_1em3)%float) l)
   end.
 
 (** what [QutipBackendV2.__init__] ends up with *)
@@ -461,13 +469,25 @@ Definition v2_legacy_eval_times_fixed (rate : float) (T : Z)
         | [] => match default with Some l => l | None => [] end
         | _ => union1d (match default with None => v2_sampling_rel rate T | Some l => l end) extra
         end in
-      EvList (map (fun r => (r * (f_of_Z T / f_1000))%float) rel)
+      EvList (map (fun r => (r * (f_of_N T / f_1000))%float) rel)
   | other => other
   end.
 
 (** the defect predicate: the default final time overshoots the validator *)
 Definition final_time_overshoots (T : Z) : bool :=
-  PrimFloat.ltb (f_of_Z T / f_1000)%float (one * f_of_Z T * f_1em3)%float.
+  PrimFloat.ltb (f_of_N T / f_1000)%float (one * f_of_N T * f_1em3)%float.
+
+(** [SimulationResults._get_index_from_time]: the FIRST index whose time is
+    strictly closer than [tol] to [t] ([np.where(abs(t - times) < tol)[0][0]]);
+    IndexError when there is none *)
+Definition index_from_time (t tol : float) (times : list float) : res Z :=
+  match first_ge_from (fun x _ => negb (PrimFloat.ltb (abs (t - x)) tol)) 0 times t with
+  | k => if k <? Z.of_nat (length times) then Ok k else Err EIndex
+  end.
+
+(** [get_final_state] / [sample_final_state] look the final time up again *)
+Definition final_index (times : list float) : res Z :=
+  index_from_time (last times zero) 0x1.0624dd2f1a9fcp-10%float times.
 
 (** * [EmulationConfig.__init__] on [default_evaluation_times] and the
     re-creation [type(default)( **config._backend_options)] under numpy 2:
